@@ -495,7 +495,13 @@ pub fn run_check(id: &str, tier: &str, seed: u64, replay: Option<&str>) -> i32 {
                         break;
                     }
                     Part::C14 => {
-                        o = if txt.contains("\"krate\"") { crate::progs::replay_program(p) } else { crate::c14::replay_c14(p) };
+                        o = if txt.contains("\"krate\"") {
+                            crate::progs::replay_program(p)
+                        } else if txt.contains("\"miri_seed\"") {
+                            crate::miri::replay_miri(p)
+                        } else {
+                            crate::c14::replay_c14(p)
+                        };
                         break;
                     }
                     Part::Hist(s) if !is_pair => {
@@ -523,6 +529,9 @@ pub fn run_check(id: &str, tier: &str, seed: u64, replay: Option<&str>) -> i32 {
                         let mut o = crate::c14::run_c14_runtime(tier, seed);
                         if o.violation.is_none() && o.harness_bug.is_none() {
                             o.merge(crate::progs::run_programs(tier, seed, None));
+                        }
+                        if tier == "thorough" && o.violation.is_none() && o.harness_bug.is_none() {
+                            o.merge(crate::miri::run_miri(seed, 8, 12, &[1, 2, 3]));
                         }
                         o
                     }
